@@ -34,6 +34,7 @@ UNITS.append(("forwarding", __import__("translator.forwarding", fromlist=["forwa
 UNITS.append(("constraints", __import__("translator.constraints", fromlist=["constraints"]).constraints, "GemVerif/Gen/Constraints.lean"))  # C16
 UNITS.append(("nets", __import__("translator.nets", fromlist=["nets"]).nets, "GemVerif/Gen/Nets.lean"))  # C03 (C03Gen)
 UNITS.append(("geminis", __import__("translator.geminis", fromlist=["geminis"]).geminis, "GemVerif/Gen/Geminis.lean"))  # C01/C02/C13 (C01Gen)
+UNITS.append(("wass", __import__("translator.wass", fromlist=["wass"]).wass, "GemVerif/Gen/Wass.lean"))  # C01/C02/C13/C17 (C01WassGen)
 UNITS.append(("prox", __import__("translator.prox", fromlist=["prox"]).prox, "GemVerif/Gen/Prox.lean"))  # C05/C06 (C05Gen)
 
 if __name__ == "__main__":
